@@ -11,6 +11,7 @@
         R:<name>:<query>:<choice>    query = ctx,where,since,tf,returned,limit  ('-' = none; where = e|g|l<n>; tf = C|P)
                                      choice = '-' | idx=k+k;idx=...
         S:<name>:<choice>
+        F:<name>:<choice>            SHOW whose delivery failed: the frames named by the choice were appended
      output: one token per op joined by " | ", then " || " and the classes the model flags per op. *)
 open Conv
 module M = Materialize
@@ -123,6 +124,9 @@ let op_in (s : string) : M.op =
   | 'S' -> (match split ':' s with
             | [_; name; ch] -> M.OShow (n_of_string name, choice_in ch)
             | _ -> failwith "S")
+  | 'F' -> (match split ':' s with
+            | [_; name; ch] -> M.OShowFail (n_of_string name, choice_in ch)
+            | _ -> failwith "F")
   | _ -> failwith "op"
 
 let keys_sorted (l : M.event list) : string =
@@ -136,7 +140,9 @@ let obs_out (o : M.obs) : string =
   | M.ObsLayout -> "L"
   | M.ObsRemembered (fs, m) -> Printf.sprintf "R ok frames=%s mark=%s" (frames_out fs) (mark_out m)
   | M.ObsRejected -> "R rejected"
-  | M.ObsShow (out, nf, m) -> Printf.sprintf "S out=%s new=%s mark=%s" (keys_sorted out) (frames_out nf) (mark_out m)
+  | M.ObsShow (out, nf, m, c) ->
+      Printf.sprintf "S out=%s new=%s mark=%s cat=%s" (keys_sorted out) (frames_out nf) (mark_out m) (mark_out c)
+  | M.ObsShowFailed (ap, m, c) -> Printf.sprintf "F new=%s mark=%s cat=%s" (frames_out ap) (mark_out m) (mark_out c)
   | M.ObsUnknown -> "S unknown"
   | M.ObsBadChoice -> "bad-choice"
 
@@ -144,6 +150,7 @@ let class_out = function
   | M.PayloadTimeField -> "PayloadTimeField" | M.LimitNotReapplied -> "LimitNotReapplied"
   | M.MarkOfLastFrame -> "MarkOfLastFrame" | M.EventNotAboveMark -> "EventNotAboveMark"
   | M.RawStreamDuplicates -> "RawStreamDuplicates" | M.SegmentOlderThanEvent -> "SegmentOlderThanEvent"
+  | M.InterruptedRefresh -> "InterruptedRefresh"
 
 let run_probe (t : string list) : string =
   let ops = Stdlib.List.map op_in (Stdlib.List.tl t) in
